@@ -130,6 +130,23 @@ def run_models(chk, binary, sc, models, calls, reps, tag):
     return res
 
 
+def computed_families(tier):
+    """Every way to define k relations of one type as a direct assignment or a computed userset of one of the k (itself included):
+    all cycle shapes of pure computed usersets with lead-in relations sorted before, between and after the cycle; once with plain
+    names, once with names that differ only in letter case (orders that ignore case leave them to map iteration)."""
+    import itertools
+    out = []
+    this = {"k": "this"}
+    user = {"t": "user", "kind": "type", "rel": "", "cond": ""}
+    for tag, names in (("cc", ["a", "b", "c", "d"]), ("cs", ["REL", "Rel", "rel"] if tier == "quick" else ["REL", "Rel", "rEL", "rel"])):
+        for choice in itertools.product(range(len(names) + 1), repeat=len(names)):
+            rels = []
+            for n, c in zip(names, choice):
+                rels.append({"name": n, "rw": this if c == 0 else {"k": "cu", "rel": names[c - 1]}, "restr": [user] if c == 0 else []})
+            out.append({"id": tag + "".join(map(str, choice)), "m": {"types": [{"name": "doc", "rels": rels}, {"name": "user", "rels": []}]}})
+    return out
+
+
 def run(pid, tier):
     chk = Check(pid, tier, "model_checking")
     sc = Scratch()
@@ -145,12 +162,14 @@ def run(pid, tier):
         gen = sc.path("gen.ndjson")
         run_harness(binary, ["wg-gen", "-out", gen, "-n", str(150 if tier == "quick" else 1500), "-seed", str(SEED)])
         models += read_ndjson(gen)
+        models += computed_families(tier)
         calls = 3 if tier == "quick" else 4
         res = run_models(chk, binary, sc, models, calls, 20 if tier == "quick" else 50, "pg")
         log("TLC: %d models, %d states of the API automaton (Build ; Reverse^%d), %.0fs" % (len(models), res.distinct, calls, res.wall))
         chk.cov.update(states=res.distinct, transitions=res.generated, traces_validated_against_impl=chk.cov.get("states_compared", 0),
                        evaluations=chk.cov.get("states_compared", 0), distinct_nontrivial=len({json.dumps(m["m"], sort_keys=True) for m in models}),
-                       rule="models = shape-menu universe (frame + 2 free relations) + seeded random models of 1-3 object types; per model the call sequences Build ; Reverse^k, k <= %d; "
+                       rule="models = shape-menu universe (frame + 2 free relations) + seeded random models of 1-3 object types + every definition of 4 relations as direct / computed userset of one of them "
+                            "(also under names differing only in case); per model the call sequences Build ; Reverse^k, k <= %d; "
                             "all path queries between public labels in every state; 20-50 repeated builds and double reversals for DOT; distinct by abstract model" % calls)
         for m in models[:1] + models[-1:]:
             chk.sample({"model": m["m"]})
